@@ -84,21 +84,7 @@ func checkC16(c *fw.Ctx) {
 	checkConnectors(c)
 	checkNetworkControl(c)
 	checkTransportUse(c)
-	// invalid names (ports) - shared with C17.4
-	if fn := mustFunc(c, "1 resolve", "spec.splitServerName"); fn != nil {
-		ok := false
-		for _, call := range fw.CallsTo(fn, false, func(n string) bool { return strings.HasPrefix(n, "strconv.") }) {
-			if fw.CalleeName(call) == "strconv.ParseUint" && len(call.Common().Args) == 3 {
-				b, _ := fw.ConstInt(call.Common().Args[1])
-				s, _ := fw.ConstInt(call.Common().Args[2])
-				ok = b == 10 && s == 16
-			} else {
-				ok = false
-				break
-			}
-		}
-		c.Check(ok, "1 resolve", "server-name ports are unsigned 16-bit decimals (others make the name invalid)", c.P.Pos(fn.Pos()), "", "the port is not parsed with ParseUint(_, 10, 16): names with ports above 65535 or signed ports resolve to connection targets")
-	}
+	checkPortParse(c, "1 resolve")
 }
 
 func checkResolve(c *fw.Ctx) {
@@ -117,12 +103,12 @@ func checkResolve(c *fw.Ctx) {
 	// actions
 	type action struct{ what, atoms string }
 	want := map[string]string{
-		"refuse invalid name":         "!VALID",
-		"IP literal target":           "VALID,IPLITERAL",
-		"explicit port target":        "VALID,!IPLITERAL,PORT",
-		"well-known lookup":           "VALID,!IPLITERAL,!PORT,WELLKNOWN_ENABLED",
-		"resolve the delegated name":  "VALID,!IPLITERAL,!PORT,WELLKNOWN_ENABLED,WELLKNOWN_OK",
-		"SRV / 8448 fallback":         "VALID,!IPLITERAL,!PORT",
+		"refuse invalid name":        "!VALID",
+		"IP literal target":          "VALID,IPLITERAL",
+		"explicit port target":       "VALID,!IPLITERAL,PORT",
+		"well-known lookup":          "VALID,!IPLITERAL,!PORT,WELLKNOWN_ENABLED",
+		"resolve the delegated name": "VALID,!IPLITERAL,!PORT,WELLKNOWN_ENABLED,WELLKNOWN_OK",
+		"SRV / 8448 fallback":        "VALID,!IPLITERAL,!PORT",
 	}
 	got := map[string]string{}
 	for _, r := range fw.Returns(fn) {
@@ -285,6 +271,27 @@ func checkWellKnown(c *fw.Ctx) {
 	for _, call := range fw.CallsTo(fn, false, fw.NameIs("io.ReadAll")) {
 		c.Check(strings.Contains(fw.Sig(call.Common().Args[0]), "io.LimitedReader"), rule, "only the limited reader is read", c.P.Pos(call.Pos()), "", "ReadAll on "+fw.Sig(call.Common().Args[0]))
 	}
+	// the max-age directive is recognised whatever optional whitespace surrounds it ("public, max-age=60")
+	nEq := 0
+	for _, call := range fw.CallsTo(fn, false, fw.NameIs("strings.EqualFold")) {
+		args := call.Common().Args
+		var name ssa.Value
+		if s, ok := fw.ConstString(args[1]); ok && s == "max-age" {
+			name = args[0]
+		} else if s, ok := fw.ConstString(args[0]); ok && s == "max-age" {
+			name = args[1]
+		}
+		if name == nil {
+			continue
+		}
+		nEq++
+		trimmed := fw.DerivesFrom(name, fw.FlowSpec{
+			IsSource: fw.IsResultOf(fw.NameIs("strings.Trim", "strings.TrimSpace", "strings.TrimLeft", "strings.TrimFunc", "strings.Fields"), -1),
+			Through:  fw.ThroughNames(map[string][]int{"strings.SplitN": {0}, "strings.Cut": {0}, "strings.ToLower": {0}, "strings.Split": {0}}),
+		})
+		c.Check(trimmed, rule, "the max-age directive name is compared after trimming optional whitespace", c.P.Pos(call.Pos()), "", "the directive name compared with \"max-age\" is "+fw.Sig(name)+", not trimmed: in `public, max-age=60` the name is \" max-age\", so max-age is ignored and Expires (or nothing) decides the lifetime")
+	}
+	c.Min(rule+" max-age comparisons", nEq, 1)
 	// max-age overrides Expires: the value stored in CacheExpiresAt is a phi whose later definition is max-age
 	for _, st := range fw.FieldStores(fn, "WellKnownResult", "CacheExpiresAt") {
 		s := fw.Sig(st.Val)
@@ -397,6 +404,45 @@ func checkConnectors(c *fw.Ctx) {
 			if !hasCtl {
 				conds := condsOf(r.Block())
 				c.Check(strings.Contains(conds, "(builtin.len(param:allowNetworks) == 0)") && strings.Contains(conds, "(builtin.len(param:denyNetworks) == 0)"), rule, "an uncontrolled dialer is used only when no list is configured", c.P.Pos(fw.InstrPos(r)), conds, "plain dialer under ["+conds+"]")
+			}
+		}
+	}
+	// dialers that are not written as a literal (`var d net.Dialer`, new(net.Dialer)): every
+	// net.Dialer object of the package gets the network control, except the one plain dialer above
+	for _, f := range c.P.SrcFuncs() {
+		if f.Pkg == nil || f.Pkg.Pkg.Path() != fw.ModPath+"/fclient" {
+			continue
+		}
+		for _, b := range f.Blocks {
+			for _, ins := range b.Instrs {
+				al, ok := ins.(*ssa.Alloc)
+				if !ok {
+					continue
+				}
+				pt, _ := al.Type().Underlying().(*types.Pointer)
+				if pt == nil || pt.Elem().String() != "net.Dialer" {
+					continue
+				}
+				hasCtl := false
+				for _, ref := range *al.Referrers() {
+					if fa, isFA := ref.(*ssa.FieldAddr); isFA {
+						if st := derefStructOf(fa.X.Type()); st != nil && (st.Field(fa.Field).Name() == "ControlContext" || st.Field(fa.Field).Name() == "Control") {
+							for _, r2 := range *fa.Referrers() {
+								if _, isSt := r2.(*ssa.Store); isSt {
+									hasCtl = true
+								}
+							}
+						}
+					}
+				}
+				root := f
+				for root.Parent() != nil {
+					root = root.Parent()
+				}
+				if hasCtl || fw.FuncName(root) == "gmsl/fclient.newDestinationTripperDialer" {
+					continue
+				}
+				c.Fail(rule, "every net.Dialer of the package carries the network control ("+fw.FuncName(root)+")", c.P.Pos(al.Pos()), "a net.Dialer without ControlContext is created in "+fw.FuncName(root)+": connections made with it bypass the allow/deny network lists")
 			}
 		}
 	}
@@ -524,5 +570,25 @@ func checkTransportUse(c *fw.Ctx) {
 		}
 		c.Check(okHost, rule, "the Host header is the resolution step's Host", c.P.Pos(fn.Pos()), "", "r.Host is not set from the resolution result")
 		c.Check(okURL, rule, "the connection target is the resolution step's destination", c.P.Pos(fn.Pos()), "", "the URL host is not the resolution result's Destination")
+	}
+}
+
+// checkPortParse: invalid names (ports) - shared with C17.4 and with C13 (an X-Matrix origin
+// must be a valid server name).
+func checkPortParse(c *fw.Ctx, rule string) {
+	// invalid names (ports) - shared with C17.4
+	if fn := mustFunc(c, rule, "spec.splitServerName"); fn != nil {
+		ok := false
+		for _, call := range fw.CallsTo(fn, false, func(n string) bool { return strings.HasPrefix(n, "strconv.") }) {
+			if fw.CalleeName(call) == "strconv.ParseUint" && len(call.Common().Args) == 3 {
+				b, _ := fw.ConstInt(call.Common().Args[1])
+				s, _ := fw.ConstInt(call.Common().Args[2])
+				ok = b == 10 && s == 16
+			} else {
+				ok = false
+				break
+			}
+		}
+		c.Check(ok, rule, "server-name ports are unsigned 16-bit decimals (others make the name invalid)", c.P.Pos(fn.Pos()), "", "the port is not parsed with ParseUint(_, 10, 16): names with ports above 65535 or signed ports resolve to connection targets")
 	}
 }
